@@ -281,6 +281,7 @@ Record v1doc := {
 }.
 
 Inductive doc :=
+| DUnavailable                  (* the configuration source cannot be read *)
 | DMalformed                    (* not JSON, or a value of the wrong JSON type *)
 | DVersion (n : N)              (* "version": n with n not in {0, 2} *)
 | DV1 (d : v1doc)
@@ -296,6 +297,7 @@ Definition has_null_prelay (p : proposer) : bool :=
 (* [null_guard] = the decoders reject null relay / proposer / proposer-relay entries (776ef9a). *)
 Definition decode (null_guard : bool) (d : doc) : outcome config cfg_err :=
   match d with
+  | DUnavailable => Err CEDecode
   | DMalformed => Err CEDecode
   | DVersion _ => Err CEDecode
   | DV1 d1 =>
